@@ -1,4 +1,6 @@
 import MmtkModel.Model.Map32
+import MmtkModel.Lemmas.Map32FL
+import MmtkModel.Lemmas.Map32Ghost
 /-!
 # C29 — Discontiguous chunk allocation keeps the region map consistent  (PARTIAL)
 
@@ -122,5 +124,201 @@ theorem allocate_sets_descriptors (debug : Bool) (st st' : St) (d k head c : Nat
     (∀ x, c ≤ x → x < c + k → st.desc x = 0) ∧
     (∀ x, st'.desc x = if c ≤ x ∧ x < c + k then d else st.desc x) :=
   ⟨(allocate_partial debug st st' d k head c h hc).2.2.2.1, (allocate_partial debug st st' d k head c h hc).2.2.2.2.1⟩
+
+/-! ## The history invariant -/
+
+/-- `regions_disjoint`: the regions handed out and not yet freed are non-empty, lie inside the
+discontiguous range `[lo, hi)` and are pairwise disjoint. -/
+def RegionsDisjoint (lo hi : Nat) (g : G) : Prop :=
+  g.regions.Pairwise Reg.Disj ∧ ∀ r ∈ g.regions, 0 < r.size ∧ lo ≤ r.start ∧ r.start + r.size ≤ hi
+
+/-- `descriptor_exact`: a chunk's descriptor is `d` iff it lies in a region currently allocated with
+`d`, and is `0` (uninitialised) otherwise. -/
+def DescriptorExact (g : G) (st : St) : Prop :=
+  (∀ r ∈ g.regions, ∀ x, r.start ≤ x → x < r.start + r.size → st.desc x = r.desc) ∧
+  (∀ x, (∀ r ∈ g.regions, ¬ (r.start ≤ x ∧ x < r.start + r.size)) → st.desc x = 0)
+
+/-- `links_exact`: the lists partition the allocated region starts; following `next` from the head of a
+list visits exactly its regions, in order, once, and ends with `0`; `prev` is the inverse (`0` at the
+head); every chunk that is not an allocated region start has no links. -/
+def LinksExact (g : G) (st : St) : Prop :=
+  g.lists.flatten.Nodup ∧ (∀ c, c ∈ g.lists.flatten ↔ ∃ r ∈ g.regions, r.start = c) ∧
+  (∀ l ∈ g.lists, Linked st 0 l) ∧ (∀ c, c ∉ g.lists.flatten → st.next c = 0 ∧ st.prev c = 0)
+
+/-- `avail_exact`: `avail` = number of chunks of `[lo, hi)` that are not allocated. -/
+def AvailExact (lo hi : Nat) (g : G) (st : St) : Prop := st.avail + regSum g.regions = hi - lo
+
+/-- The invariant of C29 for the discontiguous range `[lo, hi)` (`lo` = first chunk, `hi` = last chunk
++ 1 of `finalize_static_space_map`), relating the model state to the oracle's bookkeeping `g`. The
+first three fields tie the region map to the bookkeeping (chunk 0 is the null address; the region map
+is well formed and its free runs lie in the range; every region is an allocated run of the map). -/
+structure Inv (lo hi : Nat) (g : G) (st : St) : Prop where
+  lo_pos : 0 < lo
+  fl : FLInv lo hi st.fl
+  reg_run : ∀ r ∈ g.regions, (⟨r.start, r.size, false⟩ : Run) ∈ st.fl.runs
+  regions_disjoint : RegionsDisjoint lo hi g
+  descriptor_exact : DescriptorExact g st
+  links_exact : LinksExact g st
+  avail_exact : AvailExact lo hi g st
+
+theorem Inv.zero_not_mem {lo hi : Nat} {g : G} {st : St} (hI : Inv lo hi g st) : 0 ∉ g.lists.flatten := by
+  intro h0
+  obtain ⟨r, hr, hr0⟩ := (hI.links_exact.2.1 0).1 h0
+  have := (hI.regions_disjoint.2 r hr).2.1
+  have := hI.lo_pos
+  omega
+
+/-- `get_contiguous_region_chunks` of an allocated region is its size. -/
+theorem Inv.region_chunks {lo hi : Nat} {g : G} {st : St} (hI : Inv lo hi g st) {r : Reg}
+    (hr : r ∈ g.regions) : regionChunks st r.start = r.size :=
+  hI.fl.sizeOf_eq (hI.reg_run r hr)
+
+theorem freeNoLock_fl (debug : Bool) (st st' : St) (c n : Nat)
+    (h : freeNoLock debug st c = some (st', n)) : st'.fl = (st.fl.freeRun c).2 := by
+  unfold freeNoLock at h
+  split at h
+  · cases h
+  · simp only [Option.some.injEq, Prod.mk.injEq] at h
+    rw [← h.1]
+
+/-- Freeing an allocated region never hits the `debug_assert!(!get_free(unit))`. -/
+theorem freeNoLock_isSome {lo hi : Nat} {g : G} {st : St} (hI : Inv lo hi g st) {r : Reg}
+    (hr : r ∈ g.regions) (debug : Bool) : ∃ st' n, freeNoLock debug st r.start = some (st', n) := by
+  have hfree : st.fl.isFree r.start = false := hI.fl.isFree_eq (hI.reg_run r hr)
+  unfold freeNoLock
+  simp [hfree]
+
+theorem G.free_regions (g : G) (c : Nat) : (g.free c).regions = g.regions.filter (fun r => r.start != c) := by
+  unfold G.free G.freeSet
+  simp only
+  congr 1; funext r; simp only [List.contains_cons, List.contains_nil, Bool.or_false, bne]
+
+theorem G.free_lists (g : G) (c : Nat) : (g.free c).lists = g.lists.map (fun l => l.filter (· != c)) := by
+  unfold G.free G.freeSet
+  simp only
+  congr 1; funext l; congr 1; funext x; simp only [List.contains_cons, List.contains_nil, Bool.or_false, bne]
+
+/-- **Preservation by `free_contiguous_chunks`** of an allocated region `r`: the call returns the
+region's size and the invariant holds again for the bookkeeping without `r`. -/
+theorem inv_free {lo hi : Nat} {g : G} {st : St} (hI : Inv lo hi g st) {r : Reg} (hr : r ∈ g.regions)
+    {debug : Bool} {st' : St} {n : Nat} (h : freeNoLock debug st r.start = some (st', n)) :
+    n = r.size ∧ Inv lo hi (g.free r.start) st' := by
+  obtain ⟨hn, hav, hdesc, hnc, hpc, hpo, hno⟩ := freeNoLock_partial debug st st' r.start n h
+  have hu : Unlinks st st' r.start := ⟨hnc, hpc, hpo, hno⟩
+  have hrun := hI.reg_run r hr
+  have hsz : st.fl.sizeOf r.start = r.size := hI.fl.sizeOf_eq hrun
+  have hn' : n = r.size := hn.trans hsz
+  obtain ⟨hrpos, hrlo, hrhi⟩ := hI.regions_disjoint.2 r hr
+  obtain ⟨_, hflinv, hflmem⟩ := freeRun_spec hI.fl hrun hrlo hrhi
+  have hfl := freeNoLock_fl debug st st' r.start n h
+  obtain ⟨hnd, hmem, hlk, hunl⟩ := hI.links_exact
+  have h0 := hI.zero_not_mem
+  -- a region that starts elsewhere is disjoint from `r`
+  have hother : ∀ r' ∈ g.regions, r'.start ≠ r.start → Reg.Disj r' r := by
+    intro r' hr' hne
+    exact pw_mem (fun _ _ => Reg.Disj.symm) hI.regions_disjoint.1 hr' hr (fun e => hne (e ▸ rfl))
+  -- the list of `r.start`
+  obtain ⟨lc, hlc, hclc⟩ := List.mem_flatten.1 ((hmem r.start).2 ⟨r, hr, rfl⟩)
+  have hlcmem := Linked.next_mem (hlk lc hlc) hclc
+  refine ⟨hn', ⟨hI.lo_pos, hfl ▸ hflinv, ?_, ⟨?_, ?_⟩, ⟨?_, ?_⟩, ⟨?_, ?_, ?_, ?_⟩, ?_⟩⟩
+  · -- reg_run
+    intro r' hr'
+    rw [G.free_regions, List.mem_filter] at hr'
+    rw [hfl]
+    exact (hflmem ⟨r'.start, r'.size, false⟩ rfl).2 ⟨hI.reg_run r' hr'.1, by simpa using hr'.2⟩
+  · rw [G.free_regions]; exact hI.regions_disjoint.1.filter _
+  · intro r' hr'
+    rw [G.free_regions, List.mem_filter] at hr'
+    exact hI.regions_disjoint.2 r' hr'.1
+  · -- descriptors inside the remaining regions
+    intro r' hr' x hx1 hx2
+    rw [G.free_regions, List.mem_filter] at hr'
+    have hd := hother r' hr'.1 (by simpa using hr'.2)
+    rw [hdesc x, if_neg (by unfold Reg.Disj at hd; omega)]
+    exact hI.descriptor_exact.1 r' hr'.1 x hx1 hx2
+  · -- descriptors outside
+    intro x hx
+    rw [hdesc x]
+    split
+    · rfl
+    · rename_i hnin
+      apply hI.descriptor_exact.2
+      intro r' hr' hin
+      by_cases hs : r'.start = r.start
+      · have hpos' := (hI.regions_disjoint.2 r' hr').1
+        have : r' = r := by
+          apply Classical.byContradiction
+          intro hne
+          have hd := pw_mem (fun _ _ => Reg.Disj.symm) hI.regions_disjoint.1 hr' hr hne
+          unfold Reg.Disj at hd; omega
+        rw [this] at hin; omega
+      · exact hx r' (by rw [G.free_regions, List.mem_filter]; exact ⟨hr', by simpa using hs⟩) hin
+  · -- lists: nodup
+    rw [G.free_lists, ← List.filter_flatten]; exact hnd.filter _
+  · intro c
+    rw [G.free_lists, ← List.filter_flatten, List.mem_filter, hmem, G.free_regions]
+    constructor
+    · rintro ⟨⟨r', hr', rfl⟩, hc⟩
+      exact ⟨r', List.mem_filter.2 ⟨hr', hc⟩, rfl⟩
+    · rintro ⟨r', hr', rfl⟩
+      rw [List.mem_filter] at hr'
+      exact ⟨⟨r', hr'.1, rfl⟩, hr'.2⟩
+  · -- linked
+    intro l' hl'
+    rw [G.free_lists, List.mem_map] at hl'
+    obtain ⟨l, hl, rfl⟩ := hl'
+    have hl0 : 0 ∉ l := fun m => h0 (List.mem_flatten.2 ⟨l, hl, m⟩)
+    by_cases hcl : r.start ∈ l
+    · exact Linked.splice hu (hlk l hl) (nodup_of_mem_flatten hnd hl) hl0 hl0 hcl
+    · have hfilt : l.filter (· != r.start) = l := by
+        rw [List.filter_eq_self]; intro x hx; simp only [bne_iff_ne, ne_eq]; rintro rfl; exact hcl hx
+      rw [hfilt]
+      refine Linked.frame ?_ (hlk l hl)
+      intro x hx
+      have hxc : x ≠ r.start := fun e => hcl (e ▸ hx)
+      have hne : l ≠ lc := fun e => hcl (e ▸ hclc)
+      have hxlc : x ∉ lc := fun m => disjoint_of_nodup_flatten hnd hl hlc hne hx m
+      have hx0 : x ≠ 0 := fun e => hl0 (e ▸ hx)
+      rw [hno x hxc, hpo x hxc]
+      constructor
+      · rw [if_neg]
+        rintro ⟨hp0, e⟩
+        rcases hlcmem.2 with z | m
+        · exact hp0 z
+        · exact hxlc (e ▸ m)
+      · rw [if_neg]
+        rintro ⟨hn0, e⟩
+        rcases hlcmem.1 with z | m
+        · exact hn0 z
+        · exact hxlc (e ▸ m)
+  · -- unlinked
+    intro c hc
+    rw [G.free_lists, ← List.filter_flatten, List.mem_filter] at hc
+    by_cases hcr : c = r.start
+    · subst hcr; exact ⟨hnc, hpc⟩
+    · have hcf : c ∉ g.lists.flatten := fun m => hc ⟨m, by simpa using hcr⟩
+      have hclc' : c ∉ lc := fun m => hcf (List.mem_flatten.2 ⟨lc, hlc, m⟩)
+      obtain ⟨h1, h2⟩ := hunl c hcf
+      rw [hno c hcr, hpo c hcr]
+      constructor
+      · rw [if_neg]
+        · exact h1
+        · rintro ⟨hp0, e⟩
+          rcases hlcmem.2 with z | m
+          · exact hp0 z
+          · exact hclc' (e ▸ m)
+      · rw [if_neg]
+        · exact h2
+        · rintro ⟨hn0, e⟩
+          rcases hlcmem.1 with z | m
+          · exact hn0 z
+          · exact hclc' (e ▸ m)
+  · -- avail
+    show st'.avail + regSum (g.free r.start).regions = hi - lo
+    rw [G.free_regions, hav, hn']
+    have := regSum_remove hI.regions_disjoint.1 (fun x hx => (hI.regions_disjoint.2 x hx).1) hr
+    have := hI.avail_exact
+    unfold AvailExact at this
+    omega
 
 end Mmtk.Map32
